@@ -281,7 +281,7 @@ func c11Check(c *Ctx, m map[string]interface{}, op, path, newName string) (nontr
 
 func c11Run(c *Ctx) {
 	mustBeDefault(c)
-	c.S.Rule = "cases = (Map, operation, path[, new name]): every Map template with <= N nodes over keys {a,ab,k}, leaves {string, null}, no empty lists; operations SetValueForPath (string, map and list values) / Remove / RenameKey; all dot-paths of 1..3 segments over {a,b,k,z}; new names {a,b,k,z}. Oracle on a deep copy taken before the call: on error the Map is unchanged (structural diff and write monitor on the frozen receiver); on success exactly one entry set / removed / moved within its map plus the stated post-condition; applicable operations on the nested-map domain must succeed; rename onto an existing sibling (incl. top level and null-valued siblings) must be refused. Ascending and descending map order. Plus every sequence of 3 operations (set / remove / rename to z / rename to ab on paths {a, ab, a.ab, a.ab.k, z}) on one Map, for every nested-map template with <= 4 nodes, with the same oracle at every step. non-trivial = the operation succeeded and changed the Map."
+	c.S.Rule = "cases = (Map, operation, path[, new name]): every Map template with <= N nodes over keys {a,ab,k}, leaves {string, null}, no empty lists (plus Maps with <= N-1 nodes that hold empty-string values); operations SetValueForPath (string, map and list values) / Remove / RenameKey; all dot-paths of 1..3 segments over {a,b,k,z}; new names {a,b,k,z}. Oracle on a deep copy taken before the call: on error the Map is unchanged (structural diff and write monitor on the frozen receiver); on success exactly one entry set / removed / moved within its map plus the stated post-condition; applicable operations on the nested-map domain must succeed; rename onto an existing sibling (incl. top level and null-valued siblings) must be refused. Ascending and descending map order. Plus every sequence of 3 operations (set / remove / rename to z / rename to ab on paths {a, ab, a.ab, a.ab.k, z}) on one Map, for every nested-map template with <= 4 nodes, with the same oracle at every step. non-trivial = the operation succeeded and changed the Map."
 	c.S.Assumptions = []string{"SetValueForPath below a null parent is the documented no-op"}
 	n := 5
 	if c.Thorough {
@@ -310,6 +310,32 @@ func c11Run(c *Ctx) {
 						c.S.Nontrivial++
 						c.Sample(map[string]interface{}{"map": json.RawMessage(jsonOf(inst(t, nil))), "op": o.op, "path": p, "new_name": o.name})
 					}
+				}
+				rt.OrderPolicy = rt.PolicySorted
+			}
+		}
+	})
+	// empty-string values (what an empty XML element decodes to) beside the addressed keys
+	ge := newGen(GenP{Keys: []string{"a", "ab", "k"}, MaxList: 2, MaxKeys: 3, EmptyList: false, EmptyMap: true, ListInList: false, Leaves: []interface{}{"v", ""}})
+	ge.rootMaps(n-1, func(t *T) {
+		hasEmpty := strings.Contains(jsonOf(inst(t, nil)), `""`)
+		if !hasEmpty {
+			return
+		}
+		for _, p := range paths {
+			for _, o := range ops {
+				if !c.Mine() {
+					continue
+				}
+				c.S.States++
+				c.S.Evaluations++
+				for _, pol := range []int{rt.PolicySorted, rt.PolicyReverse} {
+					rt.OrderPolicy = pol
+					if c11Check(c, inst(t, nil).(map[string]interface{}), o.op, p, o.name) && pol == rt.PolicySorted {
+						c.S.Nontrivial++
+					}
+					c.S.Schedules++
+					c.S.Validated++
 				}
 				rt.OrderPolicy = rt.PolicySorted
 			}
